@@ -148,6 +148,11 @@ func universe(r *rand.Rand) []interface{} {
 		}{panicStringer{s}, n, s},
 		[]interface{}{panicStringer{"p"}, s, uint8(n), n}, []interface{}{panicErr{s}, echoFormatter{"after"}},
 		map[string]interface{}{"a": panicStringer{"m"}, "b": s, "c": uint(7)}, namedArr{1, 2, 'c'}, [2]namedByte{3, 'z'},
+		// integers beyond 32 bits (whose low bits look like a rune), extreme map keys (key order by comparison, not subtraction)
+		int64(1)<<32 | 'A', uint64(7)<<40 | 0x2318, int64(math.MinInt64), uint64(math.MaxUint64), int64(0x10FFFF + 1), int64(0xD800),
+		map[int64]string{math.MinInt64: "lo", 1: "one", math.MaxInt64: "hi", -3: s}, map[int]bool{-5: true, 7: false, math.MinInt64: true},
+		map[uint64]int{math.MaxUint64: 1, 0: 2, 1 << 63: n}, map[float64]string{math.Inf(-1): "a", math.NaN(): "b", 0: s, math.Inf(1): "c"},
+		map[[2]int]string{{1, 2}: "x", {1, -9}: s, {math.MinInt64, 0}: "z"},
 	}
 }
 
